@@ -67,13 +67,25 @@
    the operation named by the yield site the step starts from.  c18_cache_unguarded_status_refuted:
    the status check of the code before D3 races in the same labelled model;
    c18_cache_channel_needed / c18_cache_store_release_needed: deleting the receive's acquire / the
-   release of setValue's updateTime store from a race-free run makes it racy. *)
+   release of setValue's updateTime store from a race-free run makes it racy.
+
+   ants Task / taskx callback task (protocol level; models/Ants.v and TaskQueue.v are timed event /
+   queue machines, not shared-access machines).  models/RaceTasks.v: the goroutines that touch a
+   task's result/err and their memory events - pool.Send allocates and sends the task; the
+   dispatcher receives it, per attempt sends the closure, takes doneChan or the deadline, writes
+   result/err, reads err, finally wg.Done; inner workers receive the closure and send on doneChan
+   at ANY later time; Get2 callers read after wg.Wait (taskx: producer, single consumer running Do
+   once, Get2 callers).  c18_ants_task_protocol_race_free / c18_taskx_task_protocol_race_free:
+   no happens-before race for any number of attempts, late handlers, Get2 callers, any schedule.
+   c18_ants_err_peek_refuted / c18_taskx_do_twice_refuted: Task.Err() called before Get2 returned,
+   and a second Do while Get2 callers read, DO race (usages outside the protocol). *)
 From Coq Require Import String.
 From Got Require Import Base Race RaceProofs RaceInst RaceHB RaceHBProofs RaceMonLemmas.
 From Got Require Import Queue QueueProofs RaceQueue RaceQueueProofs.
 From Got Require Import WaitClose RaceWaitClose RaceWaitCloseProofs.
 From Got Require Import Wheel RaceWheel RaceWheelProofs.
 From Got Require Import Cache CacheSteps RaceCache RaceCacheProofs.
+From Got Require Import RaceTasks RaceTasksProofs.
 Local Open Scope nat_scope.
 
 (* ---- the monitor decides the relational happens-before notion of a data race ---- *)
@@ -540,3 +552,55 @@ Theorem c18_cache_labels_match_sites :
     end.
 Proof. exact rc_sites. Qed.
 Print Assumptions c18_cache_labels_match_sites.
+
+(* ================================================================== ants / taskx task results: labelled protocols *)
+
+(* rt_atrace retry readers sched: thread 0 = pool.Send, 1 = the dispatcher (run / runTaskOnce,
+   retry attempts), 2+i = the inner worker of attempt i (may send its result at any later time),
+   2+retry+j = a Get2 caller.  Schedule items (thread, take doneChan if possible, attempt ended
+   without error).  No bound on retry, readers, schedule. *)
+Theorem c18_ants_task_protocol_race_free :
+  forall (retry readers : nat) (sched : list rt_item), ~ hb_race (rt_atrace retry readers sched).
+Proof. exact rt_ants_race_free. Qed.
+Print Assumptions c18_ants_task_protocol_race_free.
+
+(* rt_xtrace readers sched: thread 0 = the producer (SendCallback), 1 = the single consumer
+   (receive, Do once), 2+j = a Get2/Get1 caller *)
+Theorem c18_taskx_task_protocol_race_free :
+  forall (readers : nat) (sched : list nat), ~ hb_race (rt_xtrace readers sched).
+Proof. exact rt_taskx_race_free. Qed.
+Print Assumptions c18_taskx_task_protocol_race_free.
+
+Theorem c18_task_rows_in_table : rt_rows_in_table = true.
+Proof. exact rt_rows_ok. Qed.
+Print Assumptions c18_task_rows_in_table.
+
+(* usages outside the protocol race: Task.Err() without waiting for Get2 (ants), a second Do
+   by the consumer while a released Get2 caller reads (taskx) *)
+Theorem c18_ants_err_peek_refuted :
+  hb_race (rt_atrace_peek 2 1 [(0, true, false); (1, true, false); (1, true, false); (4, true, false); (1, true, false)]).
+Proof. exact rt_ants_err_peek_refuted. Qed.
+Print Assumptions c18_ants_err_peek_refuted.
+
+Theorem c18_taskx_do_twice_refuted : hb_race (rt_xtrace_twice 1 [0; 1; 1; 1; 1; 2]).
+Proof. exact rt_taskx_do_twice_refuted. Qed.
+Print Assumptions c18_taskx_do_twice_refuted.
+
+(* non-vacuity: two attempts, the first times out and its worker sends late (after the task is
+   complete), the second is taken from doneChan; a Get2 caller reads.
+   0 = the allocation's write of result, overwritten by the dispatcher at 8 (send 2 -> receive 3);
+   13 = the dispatcher's last write of result, read by Get2 at 20 (wg.Done 17 -> wg.Wait 19) *)
+Example c18_ants_task_protocol_nonvacuous :
+  let tr := rt_atrace 2 1 [(0,true,false); (1,true,false); (1,true,false); (2,true,false); (2,true,false);
+                           (1,true,false); (1,true,false); (3,true,false); (1,true,false); (1,true,false);
+                           (3,true,false); (4,true,false)] in
+  length tr = 22 /\
+  hb_conflict tr 0 8 /\ hb_hb tr 0 8 /\ hb_conflict tr 13 20 /\ hb_hb tr 13 20.
+Proof.
+  cbv zeta. remember (rt_atrace _ _ _) as tr eqn:E. vm_compute in E. subst tr.
+  split; [reflexivity|]. repeat split.
+  - apply (rm_conflict_intro _ 0 8 0 1 (RWrite 1) (RWrite 1) 1); try reflexivity; [discriminate|left; reflexivity].
+  - apply (rm_hb_chain _ 0 2 3 8 0 1 (RWrite 1) (RRel 0) (RAcq 0) (RWrite 1) 0); try reflexivity; lia.
+  - apply (rm_conflict_intro _ 13 20 1 4 (RWrite 1) (RRead 1) 1); try reflexivity; [discriminate|left; reflexivity].
+  - apply (rm_hb_chain _ 13 17 19 20 1 4 (RWrite 1) (RRel 1) (RAcq 1) (RRead 1) 1); try reflexivity; lia.
+Qed.
